@@ -13,8 +13,9 @@ import json, os, random, re, subprocess
 import vlib
 
 TRUSTED = [
-    "Coq 8.16.1 kernel + vm_compute; primitive floats/ints (PrimFloat.*, PrimInt63.* listed by Print Assumptions are kernel primitives, "
-    "not axioms; no FloatAxioms lemma is used)",
+    "Coq 8.16.1 kernel + vm_compute; primitive floats/ints (PrimFloat.*, PrimInt63.* listed by Print Assumptions are kernel primitives); "
+    "codec_eq / typed_sound_eq_ff / guarded_sound_eq_floats / selected_eq_sound additionally rest on the standard-library axioms "
+    "FloatAxioms.eqb_spec and FloatAxioms.Prim2SF_SF2Prim (primitive == and the SF2Prim/Prim2SF round trip follow the SpecFloat specification)",
     "tools/extractors/c06.py transcribes enum OpCode (names + discriminants) from bytecode/src/bytecode/opcode.rs; "
     "tools/extract.py the NaN-box constants",
     "Model/VmArith.v is a hand model of runtime/src/vm/{arithmetic,comparison.rs,dispatch/ops/{arithmetic,comparison,bitwise,control_flow}.inc}; "
@@ -24,7 +25,8 @@ TRUSTED = [
     "(selected_opcode_sound_all_words holds for dishonest static types too); typed positions outside the model (typed array ops, calls) are explored by generated programs only",
     "Extracted/OpcodeSelectTables.v (BinaryOp, ResolvedType predicates, the five operator->opcode tables) and Extracted/DispatchArms.v "
     "(which opcodes share a match arm, which Value accessors each arm calls) are regenerated from the Rust source by tools/extractors/c06.py",
-    "EqFF/NeFF agreement is proved only modulo codec_eq_fact (primitive-float == of decoded operands = f64_eq on bit patterns); checked on a grid + by hx_vmop",
+    "== / != of an int with a float through the guarded opcodes (EqIIG/EqFFG: `i as f64` then IEEE ==, generic: int_eq_f64) is not proved equal, only tied by hx_vmop",
+    "Model/TypedArray.v is a hand model of AelysArray/AelysVec get/set/push/pop (bytecode/src/object/{array,vec}.rs), tied by hx_c06 --arrays",
     "pipeline oracle: the reference ('generic semantics') run is the same computation with every operation moved into untyped helper functions "
     "whose operands are laundered (static type Dynamic => generic opcodes); it is accepted as reference only when its own run has 0 "
     "unchecked-accessor mismatches and no panic (then every typed op it executed equals the generic op by typed_agrees_when_tagged_*)",
@@ -163,7 +165,8 @@ def tie_vmop(ctx, profiles, pairs, lite=False):
         n, bad = vmop_cross_check(cases)
         ctx.cov["vmop_typed_vs_generic_checked"] = ctx.cov.get("vmop_typed_vs_generic_checked", 0) + n
         for line, g in bad[:3]:
-            ctx.violation("typed-op-differs-from-generic:" + line.split()[1],
+            ctx.violation("typed-op-differs-from-generic:" + (line.split()[1] if line.startswith(("QBin", "QImm", "QUn")) else
+                                                             ("ForLoopI" if line.startswith("QFor") else "WhileLoopLt")),
                           "specialised opcode differs from the generic opcode of the same operator (or panics)",
                           {"case": line, "generic": g, "profile": prof})
         hv = "[" + "; ".join(f"({p}%N, {'None' if s == '-' else 'Some %s%%N' % s})" for p, s in heap) + "]"
@@ -244,6 +247,58 @@ def tie_select(ctx, path):
     ctx.cov["select_cases"] = len(cases)
     ctx.cov["select_probes_uncertain"] = len(probes)
     ctx.add_samples([{"select": cases[len(cases) // 3][2]}])
+    return len(cases)
+
+
+# ----------------------------------------------------------------------------------------------
+# tie 2b: Model/TypedArray.v <-> AelysArray / AelysVec
+def tie_arrays(ctx, path, count):
+    rc, out = vlib.sh([path, "--arrays", "--seed", str(ctx.seed), "--count", str(count)], timeout=600)
+    if rc != 0:
+        ctx.violation("hx_c06-arrays-crash", "typed array harness crashed (panic inside AelysArray/AelysVec?)", {"output_tail": out[-2000:]})
+        return 0
+    cases, opcount = [], {}
+    for line in out.splitlines():
+        if not line.startswith("QArr"):
+            continue
+        q, o = line.split("\t")
+        t = q.split()
+        ops = []
+        for x in t[3:]:
+            opcount[x[0]] = opcount.get(x[0], 0) + 1
+            if x[0] == "g":
+                ops.append(f"OGet {x[1:]}")
+            elif x[0] == "s":
+                i, w = x[1:].split(":")
+                ops.append(f"OSet {i} {w}%N")
+            elif x[0] == "p":
+                ops.append(f"OPush {x[1:]}%N")
+            elif x[0] == "o":
+                ops.append("OPop")
+            else:
+                ops.append("OLen")
+        obs = "[" + "; ".join("[" + "; ".join(f"{v}%N" for v in g.split(",")) + "]" for g in o.split()) + "]"
+        cases.append((f"(anew {t[1]} {t[2]}, [" + "; ".join(ops) + "])", obs, line))
+        # model-free oracle: a value read from a typed storage has the storage's element kind
+        want = {"KI": "int", "KF": "float", "KB": "bool"}.get(t[1])
+        if want:
+            for x, g in zip(t[3:], o.split()):
+                if x[0] in "go" and g.startswith("1,") and kind_of_word(int(g[2:])) != want:
+                    ctx.violation("typed-array-wrong-kind:" + t[1], f"a typed storage handed out a value of another kind ({g})",
+                                  {"case": line})
+    fails, err = vlib.coq_eval_cases("c06a", "From Aelys Require Import Model.Value Model.TypedArray.",
+                                     "fun q => run_ops (fst q) (snd q)", "list_eqb (list_eqb N.eqb)",
+                                     [(q, o) for q, o, _ in cases], shard=400)
+    if err:
+        ctx.broken.append("correspondence TypedArray: model evaluation failed")
+        ctx.log(err[-2000:])
+    if fails:
+        ctx.broken.append(f"correspondence TypedArray: model and AelysArray/AelysVec differ on {len(fails)} of {len(cases)} cases")
+        ctx.cov["array_disagreements"] = [cases[i][2] for i in fails[:5]]
+        ctx.log("array disagreements:", ctx.cov["array_disagreements"][:3])
+    ctx.cov["array_cases"] = len(cases)
+    ctx.cov["array_ops"] = {{"g": "get", "s": "set", "p": "push", "o": "pop", "l": "len"}[k]: v for k, v in sorted(opcount.items())}
+    ctx.add_samples([{"typed_array": cases[0][2]}] if cases else [])
     return len(cases)
 
 
@@ -373,12 +428,44 @@ def gen_cases():
                     cs.append(mk("loop-bound", "int", T, f"for-step:{src}:{v}",
                                  f"fn f(n) {{ let mut c = 0\n for i in 0..9 step n {{ c += 1 }}\n return c }}\nlet r = f({a})\n",
                                  refloop + f"let r = g(dyn(0), dyn(9), {dy(v)})\n"))
+                refincl = ("fn g(s, e, st) { let mut c = 0\n let mut i = s\n while rlt(dyn(i), radd(e, dyn(1))) { c = c + 1\n  i = radd(dyn(i), st) }\n return c }\n")
+                cs.append(mk("loop-bound", "int", T, f"for-end-incl-param:{src}:{v}",
+                             f"fn f(n: int) {{ let mut c = 0\n for i in 0..=n {{ c += 1 }}\n return c }}\nlet r = f({a})\n",
+                             refincl + f"let r = g(dyn(0), {dy(v)}, dyn(1))\n"))
+                if not (T == "int" and v == "0"):
+                    cs.append(mk("loop-bound", "int", T, f"for-incl-step:{src}:{v}",
+                                 f"fn f(n) {{ let mut c = 0\n for i in 0..=8 step n {{ c += 1 }}\n return c }}\nlet r = f({a})\n",
+                                 refincl + f"let r = g(dyn(0), dyn(8), {dy(v)})\n"))
                 cs.append(mk("while-bound", "int", T, f"while-param:{src}:{v}",
                              f"fn f(n: int) {{ let mut i = 0\n while i < n {{ i += 1 }}\n return i }}\nlet r = f({a})\n",
                              refwhile + f"let r = g({dy(v)})\n"))
                 cs.append(mk("while-bound", "int", T, f"while-untyped:{src}:{v}",
                              f"fn f(n) {{ let mut i = 0\n while i < n {{ i += 1 }}\n return i }}\nlet r = f({a})\n",
                              refwhile + f"let r = g({dy(v)})\n"))
+    # shift counts up to the i64 width as immediates and in registers (ShlIImm / ShrIImm / ShlII / ShrII)
+    for T, vs in VALS.items():
+        for K in ("40", "63", "64"):
+            for op in ("<<", ">>"):
+                cs += param_cases("int", T, vs[0], True, op, K)
+    # compound assignment and global increment fast paths (AddI / SubI / IncGlobalI emitted from the statement compiler)
+    refc = "fn ga(a, b) { let r = a + b\n return r }\nfn gs(a, b) { let r = a - b\n return r }\nfn gm(a, b) { let r = a * b\n return r }\n"
+    for T, vs in VALS.items():
+        for v in vs[:2]:
+            for launder in (True, False):
+                src = "dyn" if launder else "lit"
+                a = arg(v, launder)
+                cs.append(mk("compound-assign", "int", T, f"local+=3-=1:{src}:{v}",
+                             f"fn f(v) {{ let mut x = v\n x += 3\n x -= 1\n return x }}\nlet r = f({a})\n",
+                             refc + f"let r = gs(ga({dy(v)}, dyn(3)), dyn(1))\n"))
+                cs.append(mk("compound-assign", "int", T, f"param-x*=2:{src}:{v}",
+                             f"fn f(x: int) {{ let mut y = x\n y *= 2\n y += 1\n return y }}\nlet r = f({a})\n",
+                             refc + f"let r = ga(gm({dy(v)}, dyn(2)), dyn(1))\n"))
+                cs.append(mk("compound-assign", "int", T, f"global=g+1:{src}:{v}",
+                             f"let mut g = {a}\nfn inc() {{ g = g + 1\n return g }}\nlet r = inc()\n",
+                             refc + f"let r = ga({dy(v)}, dyn(1))\n"))
+                cs.append(mk("compound-assign", "int", T, f"global+=2:{src}:{v}",
+                             f"let mut g = {a}\nfn inc() {{ g += 2\n return g }}\nlet r = inc()\n",
+                             refc + f"let r = ga({dy(v)}, dyn(2))\n"))
     # typed array elements
     ARRS = [("Array<Int>", "Array<Int>[1, 2]"), ("Array<Float>", "Array<Float>[1.5, 2.5]"), ("Array<Bool>", "Array<Bool>[true, false]"),
             ("Vec<Int>", "Vec<Int>[3, 4]"), ("Vec<Float>", "Vec<Float>[0.5]"), ("string", '"s"'), ("int", "7"), ("null", "null"),
@@ -618,7 +705,6 @@ def run(ctx):
     ctx.assumptions = [
         "theorems are about the VM's opcode families and the backend's selection function (models tied on every run); "
         "which static types sema hands to the backend is explored by generated programs only",
-        "codec_eq_fact (premise of typed_agrees_when_tagged_eq_ff_partial)",
     ]
     ctx.cov["refuted_lemmas"] = ["eq_on_nan_differs (== on the canonical NaN: IEEE false vs Value == true; both operands are floats)"]
     ctx.cov["repaired"] = ["KF-C06-4 1cf0449 (sema: int OP float typed float)", "KF-C06-7 5bb247f (guarded orderings raise TypeError)",
@@ -627,7 +713,7 @@ def run(ctx):
     proved = ctx.prove("C06", extracted=["ValueConsts", "Opcodes", "OpcodeSelectTables", "DispatchArms"])
     if ctx.tier == "thorough" and proved:
         ctx.coqchk("C06")
-    ok, out = vlib.coq_make(["Base/CaseCheck.vo", "Model/VmArithObs.vo", "Model/OpcodeSelect.vo"])
+    ok, out = vlib.coq_make(["Base/CaseCheck.vo", "Model/VmArithObs.vo", "Model/OpcodeSelect.vo", "Model/TypedArray.vo"])
     if not ok:
         ctx.broken.append("coq: model files for the C06 ties do not build")
         ctx.log(out[-2000:])
@@ -647,13 +733,13 @@ def run(ctx):
             ctx.cov["evaluations"] = 1
             return
     # ---- tie 1
-    t = tie_vmop(ctx, ["dev", "release"], 40 if quick else 1500, lite=quick)
+    t = tie_vmop(ctx, ["dev", "release"], 40 if quick else 2500, lite=quick)
     ctx.log("opcode tie done:", t)
     # ---- ties 2 and 3
     rng = random.Random(ctx.seed)
     corpus = load_corpus()
     cases = gen_cases()
-    sel = corpus + cases + random_cases(rng, 400 if quick else 8000)
+    sel = corpus + cases + random_cases(rng, 400 if quick else 30000)
     total_runs, nsel = 0, 0
     for prof in ("dev", "release"):
         ok, paths, log = vlib.harness_build(["hx_c06"], profile=prof)
@@ -664,9 +750,29 @@ def run(ctx):
         if prof == "dev":
             nsel = tie_select(ctx, paths["hx_c06"])
             ctx.log("selection tie done:", nsel)
+            nsel += tie_arrays(ctx, paths["hx_c06"], 1500 if quick else 60000)
+            ctx.log("typed array tie done")
         st = pipeline(ctx, paths["hx_c06"], prof, sel, [0, 1, 2, 3])
         total_runs += st["runs"]
         ctx.log(f"pipeline {prof}: {st}")
+    # generator audit: which opcodes of the model the generated typed programs contain (static, -O0)
+    okb, pb, _ = vlib.harness_build(["hx_c06"], profile="release")
+    if okb:
+        fpo = os.path.join(vlib.CACHE, "c06", f"opc_{os.getpid()}.txt")
+        os.makedirs(os.path.dirname(fpo), exist_ok=True)
+        open(fpo, "w").write("\n=====\n".join(sorted({c["typed"] for c in sel})))
+        rc, out = vlib.sh([pb["hx_c06"], "--opcodes", fpo], timeout=600)
+        os.remove(fpo)
+        hist = {l.split("\t")[1]: int(l.split("\t")[2]) for l in out.splitlines() if l.startswith("OPC\t")}
+        modelled = [n for n in hist if re.fullmatch(r"(Add|Sub|Mul|Div|Mod|Lt|Le|Gt|Ge|Eq|Ne|Shl|Shr|And|Or|Xor)(II|FF|IIG|FFG|I|IImm|Imm)|"
+                                                   r"(Add|Sub|Mul|Div|Mod|Neg|Eq|Ne|Lt|Le|Gt|Ge|Not|Shl|Shr|BitAnd|BitOr|BitXor|BitNot|NotI)|"
+                                                   r"ForLoopI|ForLoopIInc|WhileLoopLt|IncGlobalI|Array\w+|Vec\w+", n)]
+        ctx.cov["pipeline_static_opcodes"] = {n: hist[n] for n in sorted(modelled)}
+        ctx.cov["pipeline_opcodes_never_emitted"] = sorted(
+            set("AddI SubI AddII SubII MulII DivII ModII AddFF SubFF MulFF DivFF ModFF LtII LeII GtII GeII EqII NeII LtFF LeFF GtFF GeFF EqFF NeFF "
+                "LtIImm LeIImm GtIImm GeIImm LtImm LeImm GtImm GeImm AddFFG SubFFG MulFFG DivFFG ModFFG LtFFG LeFFG GtFFG GeFFG EqFFG NeFFG "
+                "AddIIG LtIIG ShlII ShrII AndII OrII XorII NotI ShlIImm ShrIImm AndIImm OrIImm XorIImm ForLoopI ForLoopIInc WhileLoopLt IncGlobalI".split())
+            - set(hist))
     dist = {(c["position"], c["D"], c["T"], c["detail"]) for c in sel}
     ctx.cov["evaluations"] = (t[0] if t else 0) + nsel + total_runs
     ctx.cov["distinct_nontrivial"] = (t[1] if t else 0) + len(dist)
